@@ -40,6 +40,9 @@ def tgtOfJson (j : Json) : Option MTgt := do
   else if k == "fut" then do let f ← (jField? j "f").bind futOfJson; pure (.fut f)
   else none
 
+/-- optional explicit loop register `"r": i` (absent / null: chosen by the SDK) -/
+def sdkOptReg (j : Json) : Option Nat := (jField? j "r").bind jNat?
+
 mutual
 partial def hostOfJson (j : Json) : Option Host := do
   let k ← (jField? j "k").bind jStr?
@@ -59,8 +62,8 @@ partial def hostOfJson (j : Json) : Option Host := do
   else if k == "if" then do
     pure (.ifc (← (jField? j "cb").bind jBool?) (← ((jField? j "c").bind jStr?).bind condOfStr)
       (← val "a") (← val "b") (← body "body"))
-  else if k == "loop" then do pure (.loop (← int "s") (← int "e") (← int "d") (← body "body"))
-  else if k == "lbody" then do pure (.loopBody (← int "s") (← int "e") (← int "d") (← body "body"))
+  else if k == "loop" then do pure (.loop (sdkOptReg j) (← int "s") (← int "e") (← int "d") (← body "body"))
+  else if k == "lbody" then do pure (.loopBody (sdkOptReg j) (← int "s") (← int "e") (← int "d") (← body "body"))
   else if k == "foreach" then do
     pure (.foreach (← nat "arr") (← (jField? j "idx").bind jBool?) (← body "body"))
   else if k == "until" then do
